@@ -3,6 +3,10 @@
 //! utilities).
 
 mod c10;
+mod c11;
+mod c12;
+mod c13;
+mod c14;
 mod fields;
 
 fn main() {
@@ -10,6 +14,10 @@ fn main() {
     let args = mck::Args::parse();
     match args.prop.as_str() {
         "C10" => c10::run(&args),
+        "C11" => c11::run(&args),
+        "C12" => c12::run(&args),
+        "C13" => c13::run(&args),
+        "C14" => c14::run(&args),
         p => mck::report::machinery(&format!("h_math does not serve property {p:?}")),
     }
 }
